@@ -34,12 +34,12 @@ pub fn check_rule_with_hint<'r, L: Language>(
       check_vars(rule, utils, constraints, transform, fixer)?;
     }
     CheckHint::Normal => {
-      check_utils_defined(rule, constraints)?;
+      check_utils_defined(rule, utils, constraints, fixer)?;
       check_vars(rule, utils, constraints, transform, fixer)?;
     }
     // upper_vars is needed to check metavar defined in containing vars
     CheckHint::Rewriter(upper_vars) => {
-      check_utils_defined(rule, constraints)?;
+      check_utils_defined(rule, utils, constraints, fixer)?;
       check_vars_in_rewriter(rule, utils, constraints, transform, fixer, upper_vars)?;
     }
   }
@@ -66,11 +66,20 @@ fn check_vars_in_rewriter<'r, L: Language>(
 
 fn check_utils_defined<L: Language>(
   rule: &Rule<L>,
+  utils: &RuleRegistration<L>,
   constraints: &HashMap<String, Rule<L>>,
+  fixer: &Option<Fixer<L>>,
 ) -> RResult<()> {
   rule.verify_util()?;
   for constraint in constraints.values() {
     constraint.verify_util()?;
+  }
+  // `matches` can also be used by utility rules and by the expansions of a fix
+  utils.verify_local_utils().map_err(RuleCoreError::Utils)?;
+  if let Some(fixer) = fixer {
+    fixer
+      .verify_util()
+      .map_err(|e| RuleCoreError::Fixer(e.into()))?;
   }
   Ok(())
 }
